@@ -4,6 +4,7 @@ concatenations of encoded fields, `wr` frames, the output stream (`adjust` + `wr
 -/
 import ElfioVerif.Model.Writer
 import ElfioVerif.Lemmas.Records
+set_option linter.unusedSimpArgs false
 namespace ElfioVerif
 open Gen
 
@@ -80,5 +81,732 @@ theorem slice_wr_other (b src : Bytes) (off o w : Nat) (h : off + src.length ≤
   intro i hi
   rw [wr_getElem? _ _ _ _ h]
   ite_omega
+
+/-! ### `save` in named pieces (the only place that unfolds `save`) -/
+
+/-- the header after the four preliminary setters of `save` -/
+def saveHdr0 (o : Obj) (h : Bytes) : Bytes :=
+  let c := o.cls; let e := o.enc
+  let nseg := o.segs.length % 65536
+  let nsec := o.secs.length % 65536
+  let h := Hdr.set_phnum c e h nseg
+  let h := Hdr.set_phoff c e h (if nseg > 0 then (Hdr.e_ehsize c e h).toNat else 0)
+  let h := Hdr.set_shnum c e h nsec
+  Hdr.set_shoff c e h 0
+
+/-- the cursor behind the ELF header and the program header table -/
+def savePos0 (o : Obj) (h0 : Bytes) : BitVec 64 :=
+  save_cursor0 (Hdr.e_ehsize o.cls o.enc h0) (Hdr.e_phentsize o.cls o.enc h0) (Hdr.e_phnum o.cls o.enc h0)
+
+def saveLay0 (o : Obj) (h0 : Bytes) : Layout :=
+  { secs := o.secs, pos := savePos0 o h0, gen := List.replicate (o.secs.length % 65536) false }
+
+/-- one iteration of the loop over the ordered segments -/
+def saveStep (c : Cls) (e : Enc) (h0 : Bytes) (acc : Option (Layout × List Seg)) (g : Seg) :
+    M (Option (Layout × List Seg)) :=
+  match acc with
+  | none => pure none
+  | some (lay, done) => do
+    match ← layoutSegment c (Hdr.e_phoff c e h0) (Hdr.e_phentsize c e h0) (Hdr.e_phnum c e h0) lay g with
+    | none => pure none
+    | some (lay, g) => pure (some (lay, done ++ [g]))
+
+/-- the updated segments go back to their indices -/
+def putBack (segs done : List Seg) : List Seg :=
+  segs.map fun g => (done.find? (fun d => d.index == g.index)).getD g
+
+/-- `save` after the segments have been laid out: loose sections, section table, all writes -/
+def saveTail (o : Obj) (os : OStream) (h0 : Bytes) (segs1 : List Seg) (lay : Layout) (done : List Seg) : SaveRes :=
+  let c := o.cls; let e := o.enc
+  let segs := putBack segs1 done
+  let (secs, pos) := layoutLoose c segs lay.secs 0 lay.pos []
+  let pos := lst_cursor pos (lst_error pos)
+  let h := Hdr.set_shoff c e h0 pos.toNat
+  let os := (os.seekp (trApply o.trans 0)).write h
+  let o := { o with hdr := some h, secs := secs, segs := segs, curPos := pos }
+  if os.fail then { obj := o, os := os, ok := false } else
+  let shoff := Hdr.e_shoff c e h
+  let (secs, ls) := residentForSave c o.trans secs { st := o.stream } []
+  let o := { o with secs := secs, stream := ls.st }
+  let os := secs.foldl (saveSection c e shoff (Hdr.e_shentsize c e h)) os
+  let os := segs.foldl (saveSegment c e (Hdr.e_phoff c e h) (Hdr.e_phentsize c e h)) os
+  { obj := o, os := os, ok := !os.fail }
+
+/-- the sections, segments, cursor and header a successful save leaves in the object -/
+def tailSegs (segs1 done : List Seg) : List Seg := putBack segs1 done
+def tailLoose (o : Obj) (segs1 : List Seg) (lay : Layout) (done : List Seg) : List SecBuf × BitVec 64 :=
+  layoutLoose o.cls (putBack segs1 done) lay.secs 0 lay.pos []
+def tailShoff (o : Obj) (segs1 : List Seg) (lay : Layout) (done : List Seg) : BitVec 64 :=
+  lst_cursor (tailLoose o segs1 lay done).2 (lst_error (tailLoose o segs1 lay done).2)
+def tailHdr (o : Obj) (h0 : Bytes) (segs1 : List Seg) (lay : Layout) (done : List Seg) : Bytes :=
+  Hdr.set_shoff o.cls o.enc h0 (tailShoff o segs1 lay done).toNat
+def tailSecs (o : Obj) (segs1 : List Seg) (lay : Layout) (done : List Seg) : List SecBuf :=
+  (residentForSave o.cls o.trans (tailLoose o segs1 lay done).1 { st := o.stream } []).1
+/-- the stream after the header has been written -/
+def tailOs1 (o : Obj) (os : OStream) (h0 : Bytes) (segs1 : List Seg) (lay : Layout) (done : List Seg) : OStream :=
+  (os.seekp (trApply o.trans 0)).write (tailHdr o h0 segs1 lay done)
+/-- the stream after all writes -/
+def tailOs (o : Obj) (os : OStream) (h0 : Bytes) (segs1 : List Seg) (lay : Layout) (done : List Seg) : OStream :=
+  let h := tailHdr o h0 segs1 lay done
+  let os1 := (tailSecs o segs1 lay done).foldl
+    (saveSection o.cls o.enc (Hdr.e_shoff o.cls o.enc h) (Hdr.e_shentsize o.cls o.enc h)) (tailOs1 o os h0 segs1 lay done)
+  (tailSegs segs1 done).foldl (saveSegment o.cls o.enc (Hdr.e_phoff o.cls o.enc h) (Hdr.e_phentsize o.cls o.enc h)) os1
+
+theorem saveTail_ok {o : Obj} {os : OStream} {h0 : Bytes} {segs1 : List Seg} {lay : Layout} {done : List Seg}
+    (hok : (saveTail o os h0 segs1 lay done).ok = true) :
+    (tailOs1 o os h0 segs1 lay done).fail = false ∧
+    (saveTail o os h0 segs1 lay done).obj =
+      { o with hdr := some (tailHdr o h0 segs1 lay done), secs := tailSecs o segs1 lay done,
+               segs := tailSegs segs1 done, curPos := tailShoff o segs1 lay done,
+               stream := (residentForSave o.cls o.trans (tailLoose o segs1 lay done).1 { st := o.stream } []).2.st } ∧
+    (saveTail o os h0 segs1 lay done).os = tailOs o os h0 segs1 lay done ∧
+    (tailOs o os h0 segs1 lay done).fail = false := by
+  unfold saveTail at hok ⊢
+  simp only at hok ⊢
+  split at hok
+  · cases hok
+  · rename_i hf
+    rw [if_neg hf]
+    simp only [Bool.not_eq_true', Bool.not_eq_eq_eq_not, Bool.not_true] at hok
+    have hf' := hf
+    simp only [Bool.not_eq_true] at hf'
+    exact ⟨hf', rfl, rfl, hok⟩
+
+theorem save_eq (o : Obj) (os : OStream) :
+    save o os =
+      (match o.hdr with
+      | none => pure { obj := o, os := os, ok := false }
+      | some h =>
+        if os.fail then pure { obj := o, os := os, ok := false } else
+        let h0 := saveHdr0 o h
+        do
+          let segs1 ← o.segs.mapM (calcSegAlign o.secs)
+          let ordered ← orderedSegments segs1
+          match ← ordered.foldlM (saveStep o.cls o.enc h0) (some (saveLay0 o h0, [])) with
+          | none => pure { obj := { o with hdr := some h0, segs := segs1, curPos := savePos0 o h0 }, os := os, ok := false }
+          | some (lay, done) => pure (saveTail o os h0 segs1 lay done)) := by
+  unfold save
+  cases o.hdr with
+  | none => rfl
+  | some h =>
+    simp only []
+    split
+    · rfl
+    · apply bind_congr; intro segs1
+      apply bind_congr; intro ordered
+      apply bind_congr; intro res
+      cases res with
+      | none => rfl
+      | some p =>
+        obtain ⟨lay, done⟩ := p
+        simp only [saveTail]
+        rw [apply_ite (pure : SaveRes → M SaveRes)]
+        rfl
+
+/-- a successful save went through every phase -/
+theorem save_ok_unfold {o : Obj} {os : OStream} {r : SaveRes} (h : save o os = .ok r) (hok : r.ok = true) :
+    ∃ hd segs1 ordered lay done, o.hdr = some hd ∧ os.fail = false ∧
+      o.segs.mapM (calcSegAlign o.secs) = .ok segs1 ∧ orderedSegments segs1 = .ok ordered ∧
+      ordered.foldlM (saveStep o.cls o.enc (saveHdr0 o hd)) (some (saveLay0 o (saveHdr0 o hd), [])) = .ok (some (lay, done)) ∧
+      r = saveTail o os (saveHdr0 o hd) segs1 lay done := by
+  rw [save_eq] at h
+  cases hh : o.hdr with
+  | none => rw [hh] at h; cases h; cases hok
+  | some hd =>
+    rw [hh] at h
+    simp only at h
+    by_cases hf : os.fail = true
+    · rw [if_pos hf] at h; cases h; cases hok
+    · rw [if_neg hf] at h
+      cases h1 : o.segs.mapM (calcSegAlign o.secs) with
+      | error e => rw [h1] at h; cases h
+      | ok segs1 =>
+        rw [h1] at h
+        simp only [bind, Except.bind] at h
+        cases h2 : orderedSegments segs1 with
+        | error e => rw [h2] at h; cases h
+        | ok ordered =>
+          rw [h2] at h
+          simp only at h
+          cases h3 : ordered.foldlM (saveStep o.cls o.enc (saveHdr0 o hd)) (some (saveLay0 o (saveHdr0 o hd), [])) with
+          | error e => rw [h3] at h; cases h
+          | ok res =>
+            rw [h3] at h
+            simp only at h
+            cases res with
+            | none => cases h; cases hok
+            | some p =>
+              obtain ⟨lay, done⟩ := p
+              simp only [pure, Except.pure] at h
+              cases h
+              exact ⟨hd, segs1, ordered, lay, done, rfl, by simpa using hf, rfl, h2, h3, rfl⟩
+
+/-! ### frames: what the layout passes change -/
+
+/-- `b` is `a` up to placement: only `offset`, `addr`, `addrSet` may differ, and an address that
+    was already set is kept -/
+structure SecFrame (a b : SecBuf) : Prop where
+  rest : b = { a with offset := b.offset, addr := b.addr, addrSet := b.addrSet }
+  addrKept : a.addrSet = true → b.addr = a.addr ∧ b.addrSet = true
+
+theorem SecFrame.refl (a : SecBuf) : SecFrame a a := ⟨rfl, fun h => ⟨rfl, h⟩⟩
+
+theorem SecFrame.trans {a b c : SecBuf} (h1 : SecFrame a b) (h2 : SecFrame b c) : SecFrame a c := by
+  refine ⟨?_, fun h => ?_⟩
+  · have e2 := h2.rest; have e1 := h1.rest
+    rw [e1] at e2
+    exact e2
+  · obtain ⟨p, q⟩ := h1.addrKept h
+    obtain ⟨p', q'⟩ := h2.addrKept q
+    exact ⟨p'.trans p, q'⟩
+
+/-- index-wise relation between two lists of equal length -/
+def FrameL {α} (R : α → α → Prop) (l l' : List α) : Prop :=
+  l'.length = l.length ∧ ∀ (i : Nat) a b, l[i]? = some a → l'[i]? = some b → R a b
+
+theorem FrameL.refl {α} {R : α → α → Prop} (hr : ∀ a, R a a) (l : List α) : FrameL R l l :=
+  ⟨rfl, fun i a b h1 h2 => by rw [h1] at h2; cases h2; exact hr a⟩
+
+theorem FrameL.trans {α} {R : α → α → Prop} (ht : ∀ a b c, R a b → R b c → R a c) {l1 l2 l3 : List α}
+    (h1 : FrameL R l1 l2) (h2 : FrameL R l2 l3) : FrameL R l1 l3 := by
+  refine ⟨h2.1.trans h1.1, fun i a c ha hc => ?_⟩
+  have hi : i < l1.length := by
+    rcases Nat.lt_or_ge i l1.length with h | h
+    · exact h
+    · rw [List.getElem?_eq_none h] at ha; cases ha
+  have : i < l2.length := by rw [h1.1]; exact hi
+  exact ht _ _ _ (h1.2 i a l2[i] ha (List.getElem?_eq_getElem this)) (h2.2 i l2[i] c (List.getElem?_eq_getElem this) hc)
+
+theorem FrameL.set {α} {R : α → α → Prop} (hr : ∀ a, R a a) {l : List α} {i : Nat} {a b : α}
+    (ha : l[i]? = some a) (hab : R a b) : FrameL R l (l.set i b) := by
+  refine ⟨List.length_set, fun j x y hx hy => ?_⟩
+  rw [List.getElem?_set] at hy
+  split at hy
+  · subst_vars
+    split at hy
+    · cases hy; rw [ha] at hx; cases hx; exact hab
+    · cases hy
+  · rw [hx] at hy; cases hy; exact hr x
+
+theorem setOffset_frame (c : Cls) (b : SecBuf) (v : BitVec 64) : SecFrame b (setOffset c b v) := by
+  unfold setOffset
+  split
+  · exact ⟨rfl, fun h => ⟨rfl, h⟩⟩
+  · exact SecFrame.refl b
+
+/-- one member of `write_segment_data` -/
+theorem wsdStep_frame {c : Cls} {g : Seg} {ss : BitVec 64} {st st' : WsdSt} {idx : BitVec 16}
+    (h : wsdStep c g ss st idx = .ok (some st')) :
+    FrameL SecFrame st.lay.secs st'.lay.secs ∧ st'.lay.gen.length = st.lay.gen.length := by
+  unfold wsdStep at h
+  split at h
+  · cases h
+  · cases h
+  · rename_i sec generated hs hg
+    simp only at h
+    split at h
+    · cases h
+      exact ⟨FrameL.refl SecFrame.refl _, List.length_set⟩
+    · split at h
+      · cases h
+      · rename_i gap hgap
+        split at h
+        · cases h
+          exact ⟨FrameL.refl SecFrame.refl _, rfl⟩
+        · cases h
+          refine ⟨FrameL.set SecFrame.refl hs ?_, List.length_set⟩
+          apply SecFrame.trans _ (setOffset_frame _ _ _)
+          split
+          · rename_i hn
+            refine ⟨rfl, fun h' => ?_⟩
+            rw [h'] at hn; cases hn
+          · exact SecFrame.refl _
+
+theorem wsdLoop_frame {c : Cls} {g : Seg} {ss : BitVec 64} (l : List (BitVec 16)) {st st' : WsdSt}
+    (h : wsdLoop c g ss l st = .ok (some st')) :
+    FrameL SecFrame st.lay.secs st'.lay.secs ∧ st'.lay.gen.length = st.lay.gen.length := by
+  induction l generalizing st with
+  | nil =>
+    simp only [wsdLoop, pure, Except.pure] at h
+    cases h
+    exact ⟨FrameL.refl SecFrame.refl _, rfl⟩
+  | cons idx rest ih =>
+    simp only [wsdLoop, bind, Except.bind] at h
+    cases h1 : wsdStep c g ss st idx with
+    | error e => rw [h1] at h; cases h
+    | ok r =>
+      rw [h1] at h
+      cases r with
+      | none => cases h
+      | some st1 =>
+        simp only at h
+        obtain ⟨f1, g1⟩ := wsdStep_frame h1
+        obtain ⟨f2, g2⟩ := ih h
+        exact ⟨FrameL.trans (R := SecFrame) (fun _ _ _ => SecFrame.trans) f1 f2, g2.trans g1⟩
+
+/-- `save` changes of a segment only `offset`, `filesz`, `memsz`, `align`, `offsetSet`;
+    the alignment only grows, and so does the memory size (ELF64; in ELF32 the new value is
+    truncated to 32 bits) -/
+structure SegFrame (c : Cls) (g g' : Seg) : Prop where
+  rest : g' = { g with offset := g'.offset, filesz := g'.filesz, memsz := g'.memsz, align := g'.align,
+                       offsetSet := g'.offsetSet }
+  alignGrows : g.align.toNat ≤ g'.align.toNat
+  memGrows : c = .c64 → g.memsz.toNat ≤ g'.memsz.toNat
+
+theorem SegFrame.refl (c : Cls) (g : Seg) : SegFrame c g g := ⟨rfl, Nat.le_refl _, fun _ => Nat.le_refl _⟩
+
+theorem SegFrame.trans {c : Cls} {a b d : Seg} (h1 : SegFrame c a b) (h2 : SegFrame c b d) : SegFrame c a d := by
+  refine ⟨?_, Nat.le_trans h1.alignGrows h2.alignGrows, fun h => Nat.le_trans (h1.memGrows h) (h2.memGrows h)⟩
+  have e2 := h2.rest; have e1 := h1.rest
+  rw [e1] at e2
+  exact e2
+
+theorem SegFrame.index {c : Cls} {g g' : Seg} (h : SegFrame c g g') : g'.index = g.index := by
+  rw [h.rest]
+theorem SegFrame.secs {c : Cls} {g g' : Seg} (h : SegFrame c g g') : g'.secs = g.secs := by
+  rw [h.rest]
+
+/-- where a segment starts, and the initial memory / file counters (`layout_segments_and_their_sections`
+    up to the call of `write_segment_data`) -/
+def segStartOf (phoff : BitVec 64) (pe pn : BitVec 16) (lay : Layout) (g : Seg) :
+    M (Layout × BitVec 64 × BitVec 64 × BitVec 64) := do
+  let nsec : BitVec 16 := BitVec.ofNat 16 g.secs.length
+  let first : Option (BitVec 16) := g.secs.head?
+  let firstGen ← match first with
+    | none => pure false
+    | some f => match lay.gen[f.toNat]? with
+      | some b => pure b
+      | none => throw (.vecOob "layout_segments/section_generated[first]")
+  if lseg_is_phdr g.stype nsec then
+    let sz := lseg_phdr_size pe pn
+    pure (lay, phoff, sz, sz)
+  else if lseg_offset0 g.offsetSet g.offset then
+    pure (lay, (0 : BitVec 64), (if g.secs.length > 0 then lay.pos else 0), (if g.secs.length > 0 then lay.pos else 0))
+  else if g.secs.length > 0 && !firstGen then
+    let al := lseg_align g.align
+    let adj := lseg_adjustment (lseg_req_page g.vaddr al) (lseg_cur_page lay.pos al)
+    let pos := lseg_advance lay.pos g.align adj al
+    pure ({ lay with pos := pos }, pos, (0 : BitVec 64), (0 : BitVec 64))
+  else if g.secs.length > 0 then
+    match first with
+    | some f => match lay.secs[f.toNat]? with
+      | some s => pure (lay, s.offset, (0 : BitVec 64), (0 : BitVec 64))
+      | none => throw (.nullDeref "layout_segments/sections[first]")
+    | none => pure (lay, lay.pos, (0 : BitVec 64), (0 : BitVec 64))
+  else pure (lay, lay.pos, (0 : BitVec 64), (0 : BitVec 64))
+
+/-- the segment's fields after `write_segment_data` -/
+def segFinish (c : Cls) (g : Seg) (segStart : BitVec 64) (st : WsdSt) : Seg :=
+  let g := { g with filesz := truncA c st.file }
+  let g := if lseg_memsz_lt g.memsz st.mem then { g with memsz := truncA c st.mem } else g
+  { g with offset := truncA c segStart, offsetSet := true }
+
+theorem layoutSegment_eq (c : Cls) (phoff : BitVec 64) (pe pn : BitVec 16) (lay : Layout) (g : Seg) :
+    layoutSegment c phoff pe pn lay g =
+      (do
+        let p ← segStartOf phoff pe pn lay g
+        match ← wsdLoop c g p.2.1 g.secs { lay := p.1, mem := p.2.2.1, file := p.2.2.2 } with
+        | none => pure none
+        | some st => pure (some (st.lay, segFinish c g p.2.1 st))) := by
+  unfold layoutSegment segStartOf
+  cases g.secs.head? with
+  | none =>
+    simp only [pure_bind]
+    by_cases h1 : lseg_is_phdr g.stype (BitVec.ofNat 16 g.secs.length) = true
+    · simp only [h1, if_true, pure_bind]; rfl
+    · simp only [h1, if_false]
+      by_cases h2 : lseg_offset0 g.offsetSet g.offset = true
+      · simp only [h2, if_true, pure_bind]; rfl
+      · simp only [h2, if_false]
+        by_cases h3 : (decide (g.secs.length > 0) && !false) = true
+        · simp only [h3, if_true, pure_bind]; rfl
+        · simp only [h3, if_false]
+          by_cases h4 : g.secs.length > 0
+          · simp only [h4, if_true, pure_bind]; rfl
+          · simp only [h4, if_false, pure_bind]; rfl
+  | some f =>
+    simp only
+    cases lay.gen[f.toNat]? with
+    | none => rfl
+    | some b =>
+      simp only [pure_bind]
+      by_cases h1 : lseg_is_phdr g.stype (BitVec.ofNat 16 g.secs.length) = true
+      · simp only [h1, if_true, pure_bind]; rfl
+      · simp only [h1, if_false]
+        by_cases h2 : lseg_offset0 g.offsetSet g.offset = true
+        · simp only [h2, if_true, pure_bind]; rfl
+        · simp only [h2, if_false]
+          by_cases h3 : (decide (g.secs.length > 0) && !b) = true
+          · simp only [h3, if_true, pure_bind]; rfl
+          · simp only [h3, if_false]
+            by_cases h4 : g.secs.length > 0
+            · simp only [h4, if_true]
+              cases lay.secs[f.toNat]? <;> rfl
+            · simp only [h4, if_false, pure_bind]; rfl
+
+theorem segStartOf_secs {phoff : BitVec 64} {pe pn : BitVec 16} {lay : Layout} {g : Seg}
+    {p : Layout × BitVec 64 × BitVec 64 × BitVec 64} (h : segStartOf phoff pe pn lay g = .ok p) :
+    p.1.secs = lay.secs ∧ p.1.gen = lay.gen := by
+  unfold segStartOf at h
+  cases hh : g.secs.head? with
+  | none =>
+    rw [hh] at h
+    simp only [pure_bind] at h
+    repeat' split at h
+    all_goals first | (cases h; exact ⟨rfl, rfl⟩) | cases h
+  | some f =>
+    rw [hh] at h
+    simp only at h
+    cases hg : lay.gen[f.toNat]? with
+    | none => rw [hg] at h; cases h
+    | some b =>
+      rw [hg] at h
+      simp only [pure_bind] at h
+      repeat' split at h
+      all_goals first | (cases h; exact ⟨rfl, rfl⟩) | cases h
+
+theorem segFinish_offsetSet (c : Cls) (g : Seg) (ss : BitVec 64) (st : WsdSt) :
+    (segFinish c g ss st).offsetSet = true := rfl
+
+theorem segFinish_frame (c : Cls) (g : Seg) (ss : BitVec 64) (st : WsdSt) :
+    SegFrame c g (segFinish c g ss st) := by
+  unfold segFinish
+  simp only
+  split
+  · rename_i hlt
+    refine ⟨rfl, Nat.le_refl _, fun hc => ?_⟩
+    subst hc
+    simp only [lseg_memsz_lt, BitVec.ult, decide_eq_true_eq] at hlt
+    simp only [truncA]
+    omega
+  · exact ⟨rfl, Nat.le_refl _, fun _ => Nat.le_refl _⟩
+
+/-- a successful `layoutSegment` in its pieces -/
+theorem layoutSegment_ok {c : Cls} {phoff : BitVec 64} {pe pn : BitVec 16} {lay lay' : Layout} {g g' : Seg}
+    (h : layoutSegment c phoff pe pn lay g = .ok (some (lay', g'))) :
+    ∃ p st, segStartOf phoff pe pn lay g = .ok p ∧
+      wsdLoop c g p.2.1 g.secs { lay := p.1, mem := p.2.2.1, file := p.2.2.2 } = .ok (some st) ∧
+      lay' = st.lay ∧ g' = segFinish c g p.2.1 st := by
+  rw [layoutSegment_eq] at h
+  simp only [bind, Except.bind] at h
+  cases h1 : segStartOf phoff pe pn lay g with
+  | error e => rw [h1] at h; cases h
+  | ok p =>
+    rw [h1] at h
+    simp only at h
+    cases h2 : wsdLoop c g p.2.1 g.secs { lay := p.1, mem := p.2.2.1, file := p.2.2.2 } with
+    | error e => rw [h2] at h; cases h
+    | ok r =>
+      rw [h2] at h
+      cases r with
+      | none => cases h
+      | some st =>
+        simp only [pure, Except.pure] at h
+        cases h
+        exact ⟨p, st, rfl, h2, rfl, rfl⟩
+
+theorem layoutSegment_frame {c : Cls} {phoff : BitVec 64} {pe pn : BitVec 16} {lay lay' : Layout} {g g' : Seg}
+    (h : layoutSegment c phoff pe pn lay g = .ok (some (lay', g'))) :
+    FrameL SecFrame lay.secs lay'.secs ∧ lay'.gen.length = lay.gen.length ∧ SegFrame c g g' ∧
+      g'.offsetSet = true := by
+  obtain ⟨p, st, h1, h2, rfl, rfl⟩ := layoutSegment_ok h
+  obtain ⟨e1, e2⟩ := segStartOf_secs h1
+  obtain ⟨f, gl⟩ := wsdLoop_frame _ h2
+  simp only [e1, e2] at f gl
+  exact ⟨f, gl, segFinish_frame c g _ st, rfl⟩
+
+/-! ### `calc_segment_alignment`, segment ordering, putting segments back -/
+
+theorem calcSegAlign_fold {secs : List SecBuf} (l : List (BitVec 16)) {g g' : Seg}
+    (h : l.foldlM (fun g idx =>
+      match secs[idx.toNat]? with
+      | none => (throw (Fault.vecOob "calc_segment_alignment/sections_[index]") : M Seg)
+      | some s => pure (if BitVec.ult g.align s.addrAlign then { g with align := s.addrAlign } else g)) g = .ok g') :
+    g' = { g with align := g'.align } ∧ g.align.toNat ≤ g'.align.toNat := by
+  induction l generalizing g with
+  | nil => simp only [List.foldlM_nil, pure, Except.pure] at h; cases h; exact ⟨rfl, Nat.le_refl _⟩
+  | cons idx rest ih =>
+    simp only [List.foldlM_cons, bind, Except.bind] at h
+    cases hs : secs[idx.toNat]? with
+    | none => rw [hs] at h; cases h
+    | some s =>
+      rw [hs] at h
+      simp only [pure, Except.pure] at h
+      obtain ⟨e, le⟩ := ih h
+      split at e
+      · rename_i hlt
+        rw [if_pos hlt] at le
+        simp only [BitVec.ult, decide_eq_true_eq] at hlt
+        exact ⟨e, by simp only at le; omega⟩
+      · rename_i hlt
+        rw [if_neg hlt] at le
+        exact ⟨e, le⟩
+
+theorem calcSegAlign_frame {c : Cls} {secs : List SecBuf} {g g' : Seg} (h : calcSegAlign secs g = .ok g') :
+    SegFrame c g g' ∧ g'.offset = g.offset ∧ g'.filesz = g.filesz ∧ g'.memsz = g.memsz ∧
+      g'.offsetSet = g.offsetSet := by
+  obtain ⟨e, le⟩ := calcSegAlign_fold g.secs h
+  refine ⟨⟨?_, le, fun _ => by rw [e]; exact Nat.le_refl _⟩, by rw [e], by rw [e], by rw [e], by rw [e]⟩
+  rw [e]
+
+theorem mapM_ok_frame {α} {f : α → M α} {l l' : List α} (h : l.mapM f = .ok l') :
+    FrameL (fun a b => f a = .ok b) l l' := by
+  induction l generalizing l' with
+  | nil => simp only [List.mapM_nil, pure, Except.pure] at h; cases h; exact ⟨rfl, fun i a b h => by cases h⟩
+  | cons a rest ih =>
+    simp only [List.mapM_cons, bind, Except.bind] at h
+    cases ha : f a with
+    | error e => rw [ha] at h; cases h
+    | ok b =>
+      rw [ha] at h
+      cases hr : rest.mapM f with
+      | error e => rw [hr] at h; cases h
+      | ok bs =>
+        rw [hr] at h
+        simp only [pure, Except.pure] at h
+        cases h
+        obtain ⟨l1, l2⟩ := ih hr
+        refine ⟨by simp [l1], fun i x y hx hy => ?_⟩
+        cases i with
+        | zero => simp only [List.getElem?_cons_zero] at hx hy; cases hx; cases hy; exact ha
+        | succ j => simp only [List.getElem?_cons_succ] at hx hy; exact l2 j x y hx hy
+
+theorem orderFront_go_sub (n : Nat) (fuel i ns : Nat) (wl wl' : Array Seg)
+    (h : orderFront.go n i ns wl fuel = .ok wl') : ∀ x ∈ wl', x ∈ wl := by
+  induction fuel generalizing i ns wl with
+  | zero => unfold orderFront.go at h; cases h; exact fun x hx => hx
+  | succ fuel ih =>
+    unfold orderFront.go at h
+    split at h
+    · cases h; exact fun x hx => hx
+    · split at h
+      · cases h
+      · rename_i si hsi
+        split at h
+        · split at h
+          · cases h
+          · rename_i sn hsn
+            simp only at h
+            split at h
+            · cases h
+            · rename_i sn2 hsn2
+              intro x hx
+              have := ih _ _ _ h x hx
+              rw [Array.set!_eq_setIfInBounds, Array.set!_eq_setIfInBounds] at this
+              rcases Array.mem_or_eq_of_mem_setIfInBounds this with h1 | h1
+              · rcases Array.mem_or_eq_of_mem_setIfInBounds h1 with h2 | h2
+                · exact h2
+                · rw [h2]; exact Array.mem_of_getElem? hsn2
+              · rw [h1]; exact Array.mem_of_getElem? hsi
+        · exact ih _ _ _ h
+
+theorem orderTopo_sub (fuel : Nat) (wl res out : List Seg) (h : orderTopo wl res fuel = .ok out) :
+    ∀ x ∈ out, x ∈ wl ∨ x ∈ res := by
+  induction fuel generalizing wl res with
+  | zero =>
+    cases wl with
+    | nil => simp only [orderTopo, pure, Except.pure] at h; cases h; intro x hx; exact Or.inr (by simpa using hx)
+    | cons a r => simp only [orderTopo] at h; cases h
+  | succ fuel ih =>
+    cases wl with
+    | nil => simp only [orderTopo, pure, Except.pure] at h; cases h; intro x hx; exact Or.inr (by simpa using hx)
+    | cons a r =>
+      simp only [orderTopo] at h
+      split at h
+      · intro x hx
+        rcases ih _ _ h x hx with h1 | h1
+        · left
+          rcases List.mem_append.1 h1 with h2 | h2
+          · exact List.mem_cons_of_mem _ h2
+          · simp only [List.mem_singleton] at h2; rw [h2]; exact List.mem_cons_self
+        · exact Or.inr h1
+      · intro x hx
+        rcases ih _ _ h x hx with h1 | h1
+        · exact Or.inl (List.mem_cons_of_mem _ h1)
+        · rcases List.mem_cons.1 h1 with h2 | h2
+          · rw [h2]; exact Or.inl List.mem_cons_self
+          · exact Or.inr h2
+
+/-- every ordered segment is one of the given segments -/
+theorem orderedSegments_sub {segs ordered : List Seg} (h : orderedSegments segs = .ok ordered) :
+    ∀ x ∈ ordered, x ∈ segs := by
+  unfold orderedSegments at h
+  simp only [bind, Except.bind] at h
+  cases h1 : orderFront segs.toArray with
+  | error e => rw [h1] at h; cases h
+  | ok wl =>
+    rw [h1] at h
+    simp only at h
+    intro x hx
+    rcases orderTopo_sub _ _ _ _ h x hx with h2 | h2
+    · have := orderFront_go_sub _ _ _ _ _ _ h1 x (by simpa using h2)
+      simpa using this
+    · cases h2
+
+/-! ### the loop over the ordered segments -/
+
+/-- pointwise relation of two lists -/
+inductive All2 {α β} (R : α → β → Prop) : List α → List β → Prop
+  | nil : All2 R [] []
+  | cons {a b l l'} : R a b → All2 R l l' → All2 R (a :: l) (b :: l')
+
+/-- trace of the segment loop: the layouts it goes through and the finished segments -/
+inductive SegRun (c : Cls) (e : Enc) (h0 : Bytes) : Layout → List Seg → Layout → List Seg → Prop
+  | nil (lay : Layout) : SegRun c e h0 lay [] lay []
+  | cons {lay lay1 lay2 : Layout} {g d : Seg} {rest ds : List Seg} :
+      layoutSegment c (Hdr.e_phoff c e h0) (Hdr.e_phentsize c e h0) (Hdr.e_phnum c e h0) lay g = .ok (some (lay1, d)) →
+      SegRun c e h0 lay1 rest lay2 ds → SegRun c e h0 lay (g :: rest) lay2 (d :: ds)
+
+theorem saveFold_none (c : Cls) (e : Enc) (h0 : Bytes) (l : List Seg) :
+    l.foldlM (saveStep c e h0) none = .ok none := by
+  induction l with
+  | nil => rfl
+  | cons g rest ih => simp only [List.foldlM_cons, saveStep, pure_bind]; exact ih
+
+theorem saveFold_run {c : Cls} {e : Enc} {h0 : Bytes} (ordered : List Seg) {lay0 lay : Layout} {done0 done : List Seg}
+    (h : ordered.foldlM (saveStep c e h0) (some (lay0, done0)) = .ok (some (lay, done))) :
+    ∃ ds, done = done0 ++ ds ∧ SegRun c e h0 lay0 ordered lay ds := by
+  induction ordered generalizing lay0 done0 with
+  | nil =>
+    simp only [List.foldlM_nil, pure, Except.pure] at h
+    cases h
+    exact ⟨[], by simp, SegRun.nil _⟩
+  | cons g rest ih =>
+    simp only [List.foldlM_cons, saveStep, bind, Except.bind] at h
+    cases h1 : layoutSegment c (Hdr.e_phoff c e h0) (Hdr.e_phentsize c e h0) (Hdr.e_phnum c e h0) lay0 g with
+    | error err => rw [h1] at h; cases h
+    | ok r =>
+      rw [h1] at h
+      cases r with
+      | none =>
+        simp only [pure, Except.pure] at h
+        have := saveFold_none c e h0 rest
+        rw [this] at h; cases h
+      | some p =>
+        obtain ⟨lay1, d⟩ := p
+        simp only [pure, Except.pure] at h
+        obtain ⟨ds, e1, r1⟩ := ih h
+        exact ⟨d :: ds, by rw [e1]; simp, SegRun.cons h1 r1⟩
+
+theorem SegRun.frame {c : Cls} {e : Enc} {h0 : Bytes} {lay0 lay : Layout} {ordered ds : List Seg}
+    (h : SegRun c e h0 lay0 ordered lay ds) :
+    FrameL SecFrame lay0.secs lay.secs ∧ lay.gen.length = lay0.gen.length ∧
+      All2 (fun g d => SegFrame c g d ∧ d.offsetSet = true) ordered ds := by
+  induction h with
+  | nil lay => exact ⟨FrameL.refl SecFrame.refl _, rfl, All2.nil⟩
+  | cons h1 _ ih =>
+    obtain ⟨f1, g1, s1, o1⟩ := layoutSegment_frame h1
+    obtain ⟨f2, g2, r2⟩ := ih
+    exact ⟨FrameL.trans (R := SecFrame) (fun _ _ _ => SecFrame.trans) f1 f2, g2.trans g1,
+      All2.cons ⟨s1, o1⟩ r2⟩
+
+theorem forall₂_mem_right {α β} {R : α → β → Prop} {l : List α} {l' : List β} (h : All2 R l l')
+    {b : β} (hb : b ∈ l') : ∃ a ∈ l, R a b := by
+  induction h with
+  | nil => cases hb
+  | cons hr _ ih =>
+    rcases List.mem_cons.1 hb with h1 | h1
+    · subst h1; exact ⟨_, List.mem_cons_self, hr⟩
+    · obtain ⟨a, ha, r⟩ := ih h1
+      exact ⟨a, List.mem_cons_of_mem _ ha, r⟩
+
+/-- every segment carries its own position as index (true of every object built through
+    `segments.add` — below 65536 segments — or loaded) -/
+def SegIdxOk (segs : List Seg) : Prop := ∀ (k : Nat) g, segs[k]? = some g → g.index = k
+
+theorem putBack_frame {c : Cls} {segs1 done : List Seg} (hidx : SegIdxOk segs1)
+    (hd : ∀ d ∈ done, ∃ g ∈ segs1, SegFrame c g d ∧ d.offsetSet = true) :
+    FrameL (fun g g' => SegFrame c g g' ∧ (g' = g ∨ g'.offsetSet = true)) segs1 (putBack segs1 done) := by
+  refine ⟨by simp [putBack], fun i a b ha hb => ?_⟩
+  simp only [putBack, List.getElem?_map, ha, Option.map_some, Option.some.injEq] at hb
+  subst hb
+  cases hf : done.find? (fun d => d.index == a.index) with
+  | none => exact ⟨SegFrame.refl c a, Or.inl rfl⟩
+  | some d =>
+    simp only [Option.getD_some]
+    have hm := List.mem_of_find?_eq_some hf
+    have hi := List.find?_some hf
+    simp only [beq_iff_eq] at hi
+    obtain ⟨g, hg, fr, os⟩ := hd d hm
+    obtain ⟨j, hj⟩ := List.getElem?_of_mem hg
+    have e1 := hidx j g hj
+    have e2 := hidx i a ha
+    have : j = i := by rw [← e1, ← e2, ← hi, fr.index]
+    subst this
+    rw [ha] at hj; cases hj
+    exact ⟨fr, Or.inr os⟩
+
+/-! ### loose sections, residency -/
+
+theorem FrameL.cons {α} {R : α → α → Prop} {a b : α} {l l' : List α} (hab : R a b) (h : FrameL R l l') :
+    FrameL R (a :: l) (b :: l') := by
+  refine ⟨by simp [h.1], fun i x y hx hy => ?_⟩
+  cases i with
+  | zero => simp only [List.getElem?_cons_zero] at hx hy; cases hx; cases hy; exact hab
+  | succ j => simp only [List.getElem?_cons_succ] at hx hy; exact h.2 j x y hx hy
+
+theorem layoutLoose_frame (c : Cls) (segs : List Seg) (l : List SecBuf) (i : Nat) (pos : BitVec 64)
+    (acc : List SecBuf) :
+    ∃ l', (layoutLoose c segs l i pos acc).1 = acc.reverse ++ l' ∧ FrameL SecFrame l l' := by
+  induction l generalizing i pos acc with
+  | nil => exact ⟨[], by simp [layoutLoose], FrameL.refl SecFrame.refl _⟩
+  | cons s rest ih =>
+    unfold layoutLoose
+    split
+    · obtain ⟨l', e, f⟩ := ih (i + 1) _ (setOffset c s _ :: acc)
+      exact ⟨setOffset c s (if lsws_need_align s.addrAlign pos then lsws_aligned pos s.addrAlign else pos) :: l',
+        by rw [e]; simp, FrameL.cons (setOffset_frame _ _ _) f⟩
+    · obtain ⟨l', e, f⟩ := ih (i + 1) pos (s :: acc)
+      exact ⟨s :: l', by rw [e]; simp, FrameL.cons (SecFrame.refl s) f⟩
+
+/-- what the `get_data()` of `save_sections` may change of a section: only the data buffer and its
+    bookkeeping; nothing at all if the section is resident (or can no longer be loaded) -/
+structure ResFrame (a b : SecBuf) : Prop where
+  rest : b = { a with data := b.data, dataSize := b.dataSize, isLoaded := b.isLoaded, canLoad := b.canLoad }
+  resident : (a.isLoaded = true ∨ a.canLoad = false) → b = a
+
+theorem ResFrame.refl (a : SecBuf) : ResFrame a a := ⟨rfl, fun _ => rfl⟩
+
+theorem secLoadData_frame (c : Cls) (tr : List Trans) (ls : LoadSt) (b : SecBuf) :
+    (secLoadData c tr ls b).2.1 =
+      { b with data := (secLoadData c tr ls b).2.1.data, dataSize := (secLoadData c tr ls b).2.1.dataSize,
+               isLoaded := (secLoadData c tr ls b).2.1.isLoaded } := by
+  unfold secLoadData
+  simp only
+  repeat' split
+  all_goals rfl
+
+theorem secGetData_frame (c : Cls) (tr : List Trans) (ls : LoadSt) (b : SecBuf) :
+    ResFrame b (secGetData c tr ls b).2 ∧
+      ((b.isLoaded = true ∨ b.canLoad = false) → (secGetData c tr ls b).1 = ls) := by
+  unfold secGetData
+  split
+  · rename_i hc
+    simp only [Bool.and_eq_true, Bool.not_eq_true'] at hc
+    refine ⟨⟨?_, fun h => ?_⟩, fun h => ?_⟩
+    · have := secLoadData_frame c tr ls b
+      simp only
+      split
+      · rw [this]
+      · rw [this]
+    · rcases h with h | h
+      · rw [hc.1] at h; cases h
+      · rw [hc.2] at h; cases h
+    · rcases h with h | h
+      · rw [hc.1] at h; cases h
+      · rw [hc.2] at h; cases h
+  · exact ⟨ResFrame.refl b, fun _ => rfl⟩
+
+theorem residentForSave_frame (c : Cls) (tr : List Trans) (l : List SecBuf) (ls : LoadSt) (acc : List SecBuf) :
+    ∃ l', (residentForSave c tr l ls acc).1 = acc.reverse ++ l' ∧ FrameL ResFrame l l' := by
+  induction l generalizing ls acc with
+  | nil => exact ⟨[], by simp [residentForSave], FrameL.refl ResFrame.refl _⟩
+  | cons b rest ih =>
+    unfold residentForSave
+    split
+    · obtain ⟨l', e, f⟩ := ih (secGetData c tr ls b).1 ((secGetData c tr ls b).2 :: acc)
+      exact ⟨_ :: l', by rw [e]; simp, FrameL.cons (secGetData_frame c tr ls b).1 f⟩
+    · obtain ⟨l', e, f⟩ := ih ls (b :: acc)
+      exact ⟨b :: l', by rw [e]; simp, FrameL.cons (ResFrame.refl b) f⟩
 
 end ElfioVerif
